@@ -9,7 +9,7 @@
 #ifdef XV_CBMC
 static inline void xv_dns_havoc(void)
 {
-    xv_regs = nondet_int(); xv_timers = nondet_int(); xv_tmgrs = nondet_int(); xv_xpolls = nondet_int(); xv_queries = nondet_int();
+    xv_tmgrs = nondet_int(); xv_xpolls = nondet_int(); xv_queries = nondet_int();
     xv_q_failed_seen = nondet_bool(); xv_polled_after_fail = nondet_bool(); xv_polled = nondet_bool();
     xv_poll_fd = nondet_int(); xv_poll_timeout = nondet_int(); xv_poll_events = nondet_short(); xv_poll_rc = nondet_int();
 }
